@@ -89,7 +89,9 @@ def gen(rng, tier):
                 truth.update(proto="h1", version="1.1", expect=[tags[0], tags[1]])
             else:  # websocket
                 by_tag.pop(str(tags[0]))
-                opening = ws.handshake(path=b"/t%d" % tags[0])
+                # the tokens of Connection / Upgrade are a list: order, case and optional whitespace do not matter
+                opening = ws.handshake(path=b"/t%d" % tags[0], connection=rng.choice([b"Upgrade", b"keep-alive, Upgrade", b"keep-alive ,\tUpgrade ", b"upgrade,keep-alive"]),
+                                       upgrade=rng.choice([b"websocket", b"WebSocket"]))
                 trailing = b""
                 # frames only after acceptance: fed as a second step
                 truth.update(proto="ws", version="1.1", frames=[ws.message_frames(ws.OP_TEXT, b"hello-%d" % base), ws.close_frame(1000)])
